@@ -1,11 +1,11 @@
 (* C09 — JSON round trip restores identity, data and structure.
    Statements only; proofs in Proofs/C09Proofs.v.
 
-   What is proved here is partial.  The full statement
-     forall e in Dom9, cfg registering it:
-       unmarshal cfg (decode (marshal_error e)) = UOk r with equal message, kind, Is answers,
-       typed extractor values, frames and cause-tree shape
-   is established by the correspondence run (the model's marshal -> decode -> unmarshal
+   Proved for ALL error trees of the stated domain: the round trip restores the STRUCTURE
+   (C09_roundtrip_structure: message, kind, frames, and the whole cause tree with messages,
+   kinds, type names and frames).  The remaining parts of the statement - equal typed
+   extractor values (fields) and equal errors.Is answers - are established by the
+   correspondence run (the model's marshal -> decode -> unmarshal
    pipeline is compared with the real round trip on every generated tree, and the
    snapshots of original and restored error are compared by the oracle), together with
    the component theorems of C08 (document = accessor view), C10/C13 (unmarshal), C11
@@ -13,7 +13,52 @@
    part of the JSON step at the root of a document, frames, and the three classes the
    unchanged code does NOT restore, each exhibited as a theorem about the model. *)
 From Errdef Require Import Base.Str Base.Outcome Model.Core Model.GoErrors Model.Prog Model.Tree0 Model.Json
-  Model.Convert Model.Unmarshal Model.Decode Check.UM Check.C09 Proofs.C09Proofs.
+  Model.Convert Model.Unmarshal Model.Decode Check.UM Check.C09 Proofs.C09Proofs Proofs.C09Structure.
+
+(* STRUCTURE: for every errdef error whose cause tree lies in the domain - any shape and
+   depth, native / restored / foreign nodes; errdef nodes field-less, without custom
+   marshaler, with registered kinds; every message non-empty; foreign nodes with a type
+   name, not definitions used as causes; kind "" unresolvable and no sentinel registered -
+   Marshal succeeds, Unmarshal of the decoded document succeeds, and the restored error
+   has the same message, kind and frames and a cause tree of the same shape with equal
+   messages, kinds, type names and frames at every node.  (Field values: C11 and the
+   correspondence; identity: C01 on the resolved definitions.) *)
+Theorem C09_roundtrip_structure : forall c tbl unks e,
+  foreign_fails c -> is_errdef_error e = true -> mdom (tree_of e) -> udom c (tree_of e) ->
+  exists doc r, marshal_error e = Ok doc /\
+                unmarshal c (fst (decode tbl doc unks)) = UOk r /\
+                rshape r = tshape (tree_of e).
+Proof. exact roundtrip_structure. Qed.
+Print Assumptions C09_roundtrip_structure.
+
+(* its two halves: the JSON step is lossless on the shape; Unmarshal restores the shape *)
+Theorem C09_marshal_decode_shape : forall t, mdom t ->
+  exists doc, marshal_tree t = Ok doc /\ decodes_to doc (tshape t).
+Proof. exact marshal_decode_shape. Qed.
+Print Assumptions C09_marshal_decode_shape.
+
+Theorem C09_unmarshal_shape : forall c, foreign_fails c ->
+  forall t, mdom t -> udom c t -> forall d, ddshape d = tshape t ->
+  (exists rc, snd (both c d) = UOk rc /\ cshape rc = tshape t) /\
+  (is_errdef_error (t_err t) = true -> exists r, fst (both c d) = UOk r /\ rshape r = tshape t).
+Proof. exact unmarshal_shape. Qed.
+Print Assumptions C09_unmarshal_shape.
+
+Example C09_structure_example :
+  let p := [SDefine "k1" [ONoTrace]; SDefine "k2" []; SLeaf "leaf" "*errors.errorString";
+            SWrap 0 (Some 0) []; SFmtErrorf "w" 1;
+            SJoin 1 [Some 2; None; Some 0] [{| fr_func := "f"; fr_file := "x.go"; fr_line := 3 |}]] in
+  let d i k := {| ud_def := define (1000 + i) 0 k [ONoTrace]; ud_keys := [] |} in
+  let c := {| u_defs := [d 0%N "k1"; d 1%N "k2"]; u_default := None; u_strict := false; u_custom := []; u_sentinels := [] |} in
+  match nth 3 (s_errs (run p)) None with
+  | Some e => foreign_fails c /\ is_errdef_error e = true /\ mdom (tree_of e) /\ udom c (tree_of e) /\
+              tshape (tree_of e) =
+              NS (cat ["w: leaf"; ch 10; "leaf"]) "k2" "" [{| fr_func := "f"; fr_file := "x.go"; fr_line := 3 |}] 0
+                 [NS "w: leaf" "" "*fmt.wrapError" [] 0 [NS "leaf" "k1" "" [] 0 [NS "leaf" "" "*errors.errorString" [] 0 []]];
+                  NS "leaf" "" "*errors.errorString" [] 0 []]
+  | None => False
+  end.
+Proof. vm_compute. repeat split; try discriminate; reflexivity. Qed.
 
 Theorem C09_frames_roundtrip : forall fs, map decode_frame (map frame_json fs) = fs.
 Proof. exact frames_roundtrip. Qed.
